@@ -10,7 +10,9 @@
 (*   a read never returns more than was asked or available;                *)
 (*   after the end of the stream at most MaxEmptyReads reads return empty  *)
 (*   and the reader leaves with an error (C15).                            *)
-(* Trace: [ends |-> <<end offsets>>, total, ev |-> <<events>>]             *)
+(* Trace: [ends |-> <<end offsets>>, total, ev |-> <<events>>, mustLeave,  *)
+(*         allDelivered (C01: every complete frame must reach the          *)
+(*         listeners; C15: a reaction may fail on the dead connection)]    *)
 (* Events: [k |-> "read", want, got, off] [k |-> "deliver", i, off, ok]    *)
 (*         [k |-> "left", how]                                             *)
 (***************************************************************************)
@@ -54,6 +56,6 @@ BoundedEmptyReads == empties <= MaxEmptyReads
 \* at the end: every completely sent frame was delivered, and if the stream was cut the reader left with an error
 FinalOk ==
   (rejected = "" /\ l = Len(Ev) + 1) =>
-     /\ \A j \in 1..Len(T.ends) : (T.ends[j] <= T.total) => j <= ndel
+     /\ T.allDelivered => \A j \in 1..Len(T.ends) : (T.ends[j] <= T.total) => j <= ndel
      /\ T.mustLeave => left
 =============================================================================
